@@ -299,3 +299,103 @@ func runK11(c *core.Ctx) {
 		c.Undecided("jit/registration-sites", token.NoPos, "only %d registration sites found", n)
 	}
 }
+
+// K12: the decimal scratch buffer handed to the native number parser always has its full
+// capacity. The slow path of the native float parser (taken when the fast algorithms cannot
+// decide, e.g. exact ties) uses the buffer for the digits of intermediate shifts, not only for
+// the literal's own digits; a smaller Dcap makes it round on a truncated value.
+
+func init() {
+	register(&core.Rule{ID: "K12", Min: 3,
+		Doc: "Digit-buffer capacity: every Go assignment to types.JsonState.Dcap assigns a constant equal to types.MaxDigitNums (the size NewDbuf allocates), and the JIT prologues of both decoders store an immediate of that value into the Dcap slot (`MOVQ $_MaxDigitNums, st.Dc`); no site computes a smaller capacity from the input.",
+		Run: runK12})
+}
+
+func runK12(c *core.Ctx) {
+	p := c.Prog
+	tp := p.Pkg("internal/native/types")
+	max, _, ok := constInt(tp, "MaxDigitNums")
+	if !ok {
+		c.Undecided("types.MaxDigitNums", token.NoPos, "constant not found")
+		return
+	}
+	n := 0
+	for _, pk := range p.Pkgs {
+		if !core.IsSonic(pk.Types) {
+			continue
+		}
+		for _, fd := range core.FuncDecls(pk) {
+			if fd.Body == nil || strings.HasSuffix(p.Fset.Position(fd.Pos()).Filename, "_test.go") {
+				continue
+			}
+			fn := core.FuncName(pk, fd)
+			k := 0
+			ast.Inspect(fd.Body, func(nd ast.Node) bool {
+				as, ok := nd.(*ast.AssignStmt)
+				if !ok {
+					return true
+				}
+				for i, l := range as.Lhs {
+					se, ok := ast.Unparen(l).(*ast.SelectorExpr)
+					if !ok || se.Sel.Name != "Dcap" {
+						continue
+					}
+					n++
+					k++
+					cn := fn + "/Dcap#" + itoa(k)
+					c.Analysed(fn)
+					var rhs ast.Expr
+					if i < len(as.Rhs) {
+						rhs = as.Rhs[i]
+					}
+					if v, ok := p.ConstInt(rhs); ok && v == max && as.Tok == token.ASSIGN {
+						c.OK(cn, as.Pos(), "Dcap = %d (types.MaxDigitNums)", v)
+					} else {
+						c.Bad(cn, as.Pos(), "%s sets the digit-buffer capacity to `%s` instead of the constant types.MaxDigitNums (%d): the native slow path of float parsing needs the whole buffer for intermediate digits, so exact-tie literals are rounded on a truncated value (1 ulp off strconv.ParseFloat)", fn, exprStr(rhs), max)
+					}
+				}
+				return true
+			})
+		}
+	}
+	// JIT prologues
+	if p.GOARCH == "amd64" {
+		jd := p.Pkg("internal/decoder/jitdec")
+		em := emitModel{p}
+		for _, tg := range []struct{ recv, slot string }{{"_Assembler", "_VAR_st_Dc"}, {"_ValueDecoder", "_VAR_ss_Dc"}} {
+			found := false
+			for _, fd := range core.FuncDecls(jd) {
+				if fd.Body == nil || recvTypeName(fd) != tg.recv {
+					continue
+				}
+				recv := recvObj(p, fd)
+				ast.Inspect(fd.Body, func(nd ast.Node) bool {
+					call, ok := nd.(*ast.CallExpr)
+					if !ok {
+						return true
+					}
+					op, isSelf := em.classify(call, recv)
+					if !isSelf || op.Kind != "Emit" || op.Mnem != "MOVQ" || len(op.Ops) != 2 || op.Ops[1].Name != tg.slot {
+						return true
+					}
+					n++
+					found = true
+					cn := "jitdec.(" + tg.recv + ")/Dcap-immediate"
+					c.Analysed(core.FuncName(jd, fd))
+					if op.Ops[0].Kind == "imm" && op.Ops[0].ImmOK && op.Ops[0].Imm == max {
+						c.OK(cn, call.Pos(), "MOVQ $%d, %s", max, tg.slot)
+					} else {
+						c.Bad(cn, call.Pos(), "the generated prologue stores %s into the Dcap slot, expected the immediate %d (types.MaxDigitNums)", op.Ops[0].String(), max)
+					}
+					return true
+				})
+			}
+			if !found {
+				c.Undecided("jitdec.("+tg.recv+")/Dcap-immediate", token.NoPos, "no store into %s found", tg.slot)
+			}
+		}
+	}
+	if n < 3 {
+		c.Undecided("Dcap-sites", token.NoPos, "only %d Dcap sites found", n)
+	}
+}
